@@ -2,6 +2,7 @@
 # seed_regress.sh [ids...] : applies every kept seeded change to /repo in turn, runs the quick check of its property and
 # reports whether it is (still) detected. /repo is restored after each one. Nothing else may use /repo meanwhile.
 cd /verif
+export VERIF_EVIDENCE_DIR=/tmp/seed-evidence   # evidence of runs against a seeded change must not replace the committed evidence
 ids=${@:-$(ls seeded)}
 for s in $ids; do
   prop=${s%%-*}
